@@ -310,6 +310,30 @@ func (p *Prog) errClasses(v ssa.Value, depth int, seen map[ssa.Value]bool) errCl
 		}
 	case *ssa.UnOp:
 		if x.Op == token.MUL {
+			if a, ok := x.X.(*ssa.Alloc); ok {
+				// a spilled result or local: the value stored last before the
+				// load in the same block, else any value ever stored
+				b := x.Block()
+				idx := instrIndex(x)
+				for j := idx - 1; j >= 0; j-- {
+					if st, ok := b.Instrs[j].(*ssa.Store); ok && st.Addr == a {
+						return p.errClasses(st.Val, depth, seen)
+					}
+				}
+				n := 0
+				for _, ref := range *a.Referrers() {
+					if st, ok := ref.(*ssa.Store); ok && st.Addr == a {
+						n++
+						for c := range p.errClasses(st.Val, depth, seen) {
+							out[c] = true
+						}
+					}
+				}
+				if n == 0 {
+					out["Nil"] = true
+				}
+				return out
+			}
 			if g, ok := x.X.(*ssa.Global); ok {
 				switch p.globalErrClass(g) {
 				case "":
